@@ -90,6 +90,13 @@ func c09Specs() []c09Spec {
 		// the size limit's victim lives in the mailbox whose cap another delivery is enforcing
 		{ID: "S22-mem-cap1-maxkb-size-victim-in-capped-mailbox", Store: sys.StoreSpec{Backend: "mem", Cap: 1, MaxKB: 1}, Init: []c09Op{{Kind: "add", MB: m1, Size: 600}},
 			Threads: [][]c09Op{{{Kind: "add", MB: m1, Size: 300}}, {{Kind: "add", MB: m2, Size: 600}}}, Bound: [2]int{2, 3}, NoLin: true, LimitB: 1024},
+		// a size-limited store that is nearly full: a removal that has RETURNED has made room, so the
+		// delivery that follows it (same thread) fits and evicts nothing, whatever the enforcer
+		// goroutine was doing in between
+		{ID: "S24-mem-maxkb-remove-then-add-that-fits", Store: sys.StoreSpec{Backend: "mem", MaxKB: 1}, Init: []c09Op{{Kind: "add", MB: m1, Size: 300}, {Kind: "add", MB: m2, Size: 600}},
+			Threads: [][]c09Op{{{Kind: "remove", MB: m2, Ref: "init2"}, {Kind: "add", MB: storeBoxes[2], Size: 600}}, {{Kind: "list", MB: m1}}}, Bound: [2]int{2, 3}},
+		{ID: "S25-mem-maxkb-purge-then-add-that-fits", Store: sys.StoreSpec{Backend: "mem", MaxKB: 1}, Init: []c09Op{{Kind: "add", MB: m1, Size: 300}, {Kind: "add", MB: m2, Size: 300}, {Kind: "add", MB: m2, Size: 300}},
+			Threads: [][]c09Op{{{Kind: "purge", MB: m2}, {Kind: "add", MB: storeBoxes[2], Size: 600}}, {{Kind: "list", MB: m1}}}, Bound: [2]int{2, 3}},
 		{ID: "S1-mem-maxkb-add-remove-add", Store: memKB, Init: []c09Op{add(m1)},
 			Threads: [][]c09Op{{add(m1)}, {{Kind: "remove", MB: m1, Ref: "init1"}}, {add(m1)}}, Bound: [2]int{2, 3}},
 		{ID: "S16-mem-maxkb-fresh-mailbox-add-purge-add", Store: memKB, Init: nil,
